@@ -1,15 +1,18 @@
-"""C20 harness generation and execution: one executable per program, all backends inside.
+"""C20 harness generation and execution: one executable per chunk of programs, all backends inside.
 
-For a program P the executable contains
-  main TU     driver.hpp + the reference (sequential reading) + the translated *launcher* source(s), included
-              unchanged apart from preprocessor renames of the kernel/helper names (every backend's translation
-              defines the same extern "C" names) + glue;
-  serial TU   the Serial translation            (ASan+UBSan)
-  openmp TU   the OpenMP translation, -fopenmp  (ASan+UBSan; runtime = miniomp.cpp, deterministic virtual threads)
-  5 device TUs  CUDA/HIP/OpenCL/Metal/DPC++ translation + the gpuemu stub of that language with work-group
-              semantics (-DGPUEMU_WORKGROUP) + one Entry trampoline per device kernel   (ASan+UBSan)
-A backend whose TU does not compile is left out of the executable and reported (an observation about the
-translation: the stubs declare only documented API).
+For a chunk of programs the executable contains
+  main TU     driver.hpp and, per program in its own namespace: the reference (sequential reading), the translated
+              *launcher* source(s), the Serial and the OpenMP translation - all included unchanged apart from
+              preprocessor renames of the kernel/helper names (every backend's translation defines the same extern "C"
+              names) - plus glue; compiled with ASan+UBSan and -fopenmp (OpenMP runtime = miniomp.cpp, deterministic
+              virtual threads) against the ASan libocca
+  5 device TUs  the CUDA/HIP/OpenCL/Metal/DPC++ translations of the chunk + the gpuemu stub of that language with
+              work-group semantics (-DGPUEMU_WORKGROUP) + one Entry trampoline per device kernel   (ASan+UBSan)
+and, for the race pass, a second executable with the same main object and the device TUs recompiled with
+-fsanitize=thread (engines/gpuemu/race_runtime.cpp).
+If a TU of a chunk does not compile, every program of the chunk is built on its own; a backend whose translation
+does not compile then is left out of that executable and reported (an observation about the translation: the
+stubs declare only documented API).
 """
 import hashlib, os, re, subprocess, sys
 from concurrent.futures import ThreadPoolExecutor
@@ -100,14 +103,18 @@ def unrenames(names):
     return "".join("#undef %s\n" % n for n in names)
 
 
-def kept_tu(p, mode, xl):
-    names, defs = renames(p, mode)
-    return defs + '#include "%s"\n' % xl
+def kept_tu(progs, mode, xl):
+    """separate TU for the Serial / OpenMP translations of a chunk (only used when the merged main TU fails)"""
+    s = []
+    for p in progs:
+        names, defs = renames(p, mode)
+        s.append("namespace P_%s {\n%s#include \"%s\"\n%s}\n" % (p.name, defs, xl[(p.name, mode)][1], unrenames(names)))
+    return "".join(s)
 
 
-def device_tu(p, mode, xl):
+def device_section(p, mode, xl_path):
     names, defs = renames(p, mode)
-    s = [defs, '#include "%s"' % xl]
+    s = ["namespace P_%s {" % p.name, defs, '#include "%s"' % xl_path]
     deref = []
     for i, a in enumerate(p.args):
         if a.kind == "int":
@@ -128,16 +135,23 @@ def device_tu(p, mode, xl):
             s.append("GPUEMU_GRID_ENTRY(%s, %s(%s, gpuemu::metalGroupPosition(), gpuemu::metalThreadPosition()))" % (entry, fn, deref))
         else:
             s.append("GPUEMU_GRID_ENTRY(%s, %s(%s))" % (entry, fn, deref))
+    s.append(unrenames(names) + "}")
     return "\n".join(s) + "\n"
 
 
-def main_tu(p, kept_modes, launched_modes, launcher_of, inline_kept=None):
-    """launcher_of: mode -> (index, path) of the distinct launcher text used by that mode.
-    inline_kept: mode -> path of a Serial/OpenMP translation to include in this TU (fewer compiler runs);
-    modes not listed there are expected as separate objects."""
-    inline_kept = inline_kept or {}
+def device_tu(progs, mode, xl):
+    """device translations of all programs of the chunk that the translator of `mode` accepted, each in its own
+    namespace (the kernels are extern "C" with distinct names; helper functions would collide otherwise)"""
+    return "".join(device_section(p, mode, xl[(p.name, mode)][1]) for p in progs if xl[(p.name, mode)][0] == "OK")
+
+
+def program_section(p, kept_modes, launched_modes, launcher_of, inline_kept):
+    """everything of one program inside the main TU, in namespace P_<name>.
+    launcher_of: mode -> (index, path) of the distinct launcher text used by that mode.
+    inline_kept: mode -> path of a Serial/OpenMP translation to include here; kept modes not listed are expected as
+    separate objects."""
     arrays = [a for a in p.args if a.is_array()]
-    s = ['#include "occa_launch.hpp"', '#include <occa/utils/exception.hpp>', '#include "driver.hpp"', "", p.ref]
+    s = ["namespace P_%s {" % p.name, p.ref]
     specs = []
     for a in arrays:
         kind = 0 if a.kind == "in" else (2 if a.name == "cnt" else 1)
@@ -157,27 +171,38 @@ def main_tu(p, kept_modes, launched_modes, launcher_of, inline_kept=None):
         tag = "launcher%d" % lf[0]
         names, defs = renames(p, tag)
         s.append(defs + '#include "%s"\n' % lf[1] + unrenames(names))
-    if launched_modes:
-        s.append("static gpuemu::Host& host() { static gpuemu::Host *h = new gpuemu::Host(); return *h; }")
-        s.append("static occa::memory wrap(int *p, size_t n) { return host().device.wrapMemory<int>(p, (occa::dim_t) n); }")
     for m in launched_modes:
         for k in range(p.nkernels):
             s.append('extern "C" void entry_%s_%s_%d(void **args, const size_t outer[3], const size_t inner[3]);' % (p.name, m, k))
         s.append("static void run_%s(c20::Data &d) {" % m)
         s.append("  static occa::modeKernel_t *dk[%d] = {%s};" % (
-            p.nkernels, ", ".join('host().kernel("%s_%d", entry_%s_%s_%d)' % (p.name, k, p.name, m, k) for k in range(p.nkernels))))
+            p.nkernels, ", ".join('c20host().kernel("%s_%d", entry_%s_%s_%d)' % (p.name, k, p.name, m, k) for k in range(p.nkernels))))
         largs = []
         for i, a in enumerate(arrays):
-            s.append("  occa::memory m%d = wrap(d.arr[%d], d.len[%d]);" % (i, i, i))
+            s.append("  occa::memory m%d = c20wrap(d.arr[%d], d.len[%d]);" % (i, i, i))
         for a in p.args:
             largs.append("m%d.getModeMemory()" % arrays.index(a) if a.is_array() else data_expr(p, a))
         s.append("  %s_launcher%d(dk, %s);" % (p.name, launcher_of[m][0], ", ".join(largs)))
         s.append("}")
     s.append("static const c20::Backend backends[] = {")
     for m in list(kept_modes) + list(launched_modes):
-        s.append('  {"%s", run_%s},' % (m, m))
+        s.append('  {"%s", run_%s, %s},' % (m, m, "true" if m in LAUNCHED else "false"))
     s.append("};")
-    s.append("""std::string c20::describeException() {
+    s.append("}")
+    entry = '  {"%s", P_%s::backends, %d, P_%s::run_reference, P_%s::specs, %d},' % (
+        p.name, p.name, len(kept_modes) + len(launched_modes), p.name, p.name, len(arrays))
+    return "\n".join(s) + "\n", entry
+
+
+def main_tu(sections):
+    """sections: list of (text, table entry) from program_section"""
+    s = ['#include "occa_launch.hpp"', '#include <occa/utils/exception.hpp>', '#include "gpuemu/workgroup.hpp"', '#include "driver.hpp"',
+         "static gpuemu::Host& c20host() { static gpuemu::Host *h = new gpuemu::Host(); return *h; }",
+         "static occa::memory c20wrap(int *p, size_t n) { return c20host().device.wrapMemory<int>(p, (occa::dim_t) n); }"]
+    s += [text for text, _ in sections]
+    s.append("static const c20::ProgramEntry programs[] = {\n%s\n};" % "\n".join(e for _, e in sections))
+    s.append("""void c20::setItemOrder(bool descending) { gpuemu::wg::setDescendingOrder(descending); }
+std::string c20::describeException() {
   try { throw; }
   catch (gpuemu::launch_error &e) { return e.what(); }
   catch (occa::exception &e) { return std::string("occa::exception: ") + e.what(); }
@@ -185,8 +210,8 @@ def main_tu(p, kept_modes, launched_modes, launcher_of, inline_kept=None):
   catch (...) { return "unknown exception"; }
 }
 int main(int argc, char **argv) {
-  return c20::drive(argc, argv, backends, %d, run_reference, specs, %d);
-}""" % (len(kept_modes) + len(launched_modes), len(arrays)))
+  return c20::driveChunk(argc, argv, programs, %d);
+}""" % len(sections))
     return "\n".join(s) + "\n"
 
 
@@ -204,7 +229,23 @@ def run_cmd(cmd, what):
 
 
 def kept_compile_cmd(src, obj, openmp=False):
-    return gpuemu.base_flags(VARIANT) + ["-I" + HERE] + (["-fopenmp"] if openmp else []) + ["-c", src, "-o", obj]
+    return gpuemu.base_flags(VARIANT, opt="-O0") + ["-I" + HERE] + (["-fopenmp"] if openmp else []) + ["-c", src, "-o", obj]
+
+
+STUB_INCLUDE = {
+    "cuda": '#include "gpuemu/cuda.h"', "hip": "#include <hip/hip_runtime.h>", "opencl": '#include "gpuemu/opencl_c.h"',
+    "metal": "#include <metal_compute>\n#include <metal_stdlib>", "dpcpp": "#include <CL/sycl.hpp>",
+}
+
+
+def device_flags(race):
+    """flags of a device TU.  Same sanitizers as gpuemu.device_cmd / race_device_cmd, but -O0 (cheapest for one tiny
+    kernel per TU) and the language stub through a precompiled header."""
+    g = gpuemu.HERE
+    if race:
+        return ["g++", "-std=c++17", "-O0", "-g1", "-w"] + gpuemu.RACE_FLAGS + ["-I" + g, "-I" + os.path.join(g, "include")]
+    return (["g++", "-std=c++17", "-O0", "-g1", "-w"] + gpuemu.SAN[VARIANT] + gpuemu.WORKGROUP_FLAGS
+            + ["-I" + g, "-I" + os.path.join(g, "include")])
 
 
 class Builder:
@@ -217,80 +258,142 @@ class Builder:
     def prepare(self):
         """objects and the precompiled header shared by all programs"""
         run_cmd(kept_compile_cmd(os.path.join(HERE, "miniomp.cpp"), self.miniomp_o), "miniomp compile")
-        base = ["-I" + HERE, "-fopenmp"]      # the main TU may contain the OpenMP translation
-        self.host_extra = base + gpuemu.host_pch(VARIANT, os.path.join(self.wd, "pch"), extra=base, also_include=["driver.hpp"])
+        self.race_o = os.path.join(self.wd, "race_runtime.o")
+        run_cmd(gpuemu.race_runtime_cmd(self.race_o), "race runtime compile")
+        base = ["-I" + HERE, "-fopenmp", "-O0"]      # the main TU may contain the OpenMP translation
+        jobs = [("host", None)] + [(m, r) for m in LAUNCHED for r in (False, True)]
 
-    def build_program(self, p, xl, modes):
-        """xl: (name, mode) -> translation result.  Returns dict: exe, modes (linked), compile_failures {mode: text},
-        rejected {mode: verdict}.  First attempt: Serial and OpenMP translations inside the main TU (one compiler
-        run less each); if that TU does not compile, every translation is compiled on its own so that the
-        failure is attributed to the right backend."""
-        info = {"exe": None, "modes": [], "compile_failures": {}, "rejected": {}}
-        d = os.path.join(self.wd, p.name)
+        def one(job):
+            m, race = job
+            if m == "host":
+                return gpuemu.host_pch(VARIANT, os.path.join(self.wd, "pch"), extra=base, also_include=["driver.hpp", "gpuemu/workgroup.hpp"])
+            d = os.path.join(self.wd, "pch-%s-%s" % (m, "race" if race else "asan"))
+            os.makedirs(d, exist_ok=True)
+            hdr = write(os.path.join(d, "stub.hpp"), STUB_INCLUDE[m] + "\n")
+            run_cmd(device_flags(race) + ["-x", "c++-header", hdr, "-o", hdr + ".gch"], "stub precompile %s" % m)
+            return hdr
+
+        with ThreadPoolExecutor(max_workers=len(jobs)) as ex:
+            res = list(ex.map(one, jobs))
+        self.host_extra = base + res[0]
+        self.stub_pch = dict(((m, r), h) for (m, r), h in zip(jobs[1:], res[1:]))
+
+    def device_cmd(self, mode, src, obj, race=False):
+        return device_flags(race) + ["-include", self.stub_pch[(mode, race)], "-x", "c++", "-c", src, "-o", obj]
+
+    def build_race_exe(self, tag, progs, infos):
+        """second executable of a chunk for the race pass: the same main object, device TUs recompiled with
+        -fsanitize=thread (no ASan), race_runtime.o.  -> path or None; failures are harness errors of the caller."""
+        d = os.path.join(self.wd, tag)
+        modes = [m for m in LAUNCHED if any(m in infos[p.name]["modes"] for p in progs)]
+        def compile_race(m):
+            obj = os.path.join(d, "%s_race.o" % m)
+            run_cmd(self.device_cmd(m, os.path.join(d, "%s_tu.cpp" % m), obj, race=True), "race-pass compile of the %s device translations" % m)
+            return obj
+
+        if not modes:
+            return None
+        with ThreadPoolExecutor(max_workers=len(modes)) as ex:
+            objs = list(ex.map(compile_race, modes))
+        kept = [os.path.join(d, f) for f in ("serial.o", "openmp.o") if os.path.exists(os.path.join(d, f))]
+        exe = os.path.join(d, "run_race.exe")
+        run_cmd(gpuemu.link_cmd(VARIANT, [os.path.join(d, "main.o")] + objs + kept + [self.miniomp_o, self.race_o], exe), "race-pass link " + tag)
+        return exe
+
+    def build_chunk(self, tag, progs, xl, modes):
+        """One executable for the programs `progs`.  xl: (name, mode) -> translation result.
+        -> dict name -> info {exe, modes (linked), compile_failures {mode: text}, rejected {mode: verdict}}, or None when a TU
+        of a chunk of several programs does not compile (the caller then builds every program on its own, which
+        attributes the failure).  First attempt: Serial and OpenMP translations inside the main TU (two compiler
+        runs less); if that TU does not compile they are compiled on their own."""
+        single = len(progs) == 1
+        infos = dict((p.name, {"exe": None, "modes": [], "compile_failures": {}, "rejected": {}, "chunk": tag}) for p in progs)
+        d = os.path.join(self.wd, tag)
         os.makedirs(d, exist_ok=True)
+        for p in progs:
+            for m in modes:
+                if xl[(p.name, m)][0] != "OK":
+                    infos[p.name]["rejected"][m] = xl[(p.name, m)][0]
         objs = []
-        kept_paths, launched_ok = {}, []
-        launcher_texts = []          # distinct launcher sources: (index, path, sha1)
-        launcher_of = {}
-        for m in modes:
-            v, dev, lau = xl[(p.name, m)]
-            if v != "OK":
-                info["rejected"][m] = v
-                continue
-            if m in KEPT:
-                kept_paths[m] = dev
-                continue
+        launched_ok = []          # modes whose device TU compiled
+        dev_modes = [m for m in modes if m not in KEPT and any(xl[(p.name, m)][0] == "OK" for p in progs)]
+
+        def compile_device(m):
             obj = os.path.join(d, "%s.o" % m)
             try:
-                src = write(os.path.join(d, "%s_tu.cpp" % m), device_tu(p, m, dev))
-                run_cmd(gpuemu.device_cmd(m, src, obj, VARIANT, workgroup=True), "compile of the %s device translation" % m)
-                with open(lau) as f:
-                    text = f.read()
-                key = hashlib.sha1(text.encode()).hexdigest()
-                found = [t for t in launcher_texts if t[2] == key]
-                if not found:
-                    launcher_texts.append((len(launcher_texts), lau, key))
-                    found = [launcher_texts[-1]]
-                launcher_of[m] = (found[0][0], found[0][1])
+                src = write(os.path.join(d, "%s_tu.cpp" % m), device_tu(progs, m, xl))
+                run_cmd(self.device_cmd(m, src, obj), "compile of the %s device translation" % m)
+                return m, obj, None
+            except BuildError as e:
+                return m, None, str(e)
+
+        with ThreadPoolExecutor(max_workers=max(1, len(dev_modes))) as ex:
+            results = list(ex.map(compile_device, dev_modes))
+        for m, obj, err in results:
+            if err is None:
                 launched_ok.append(m)
                 objs.append(obj)
-            except BuildError as e:
-                info["compile_failures"][m] = str(e)
-        kept_ok = [m for m in KEPT if m in kept_paths]
-        if not (kept_ok or launched_ok):
-            return info
+            elif not single:
+                return None
+            else:
+                infos[progs[0].name]["compile_failures"][m] = err
+
+        def sections(inline):
+            out = []
+            for p in progs:
+                kept_ok = [m for m in KEPT if m in modes and xl[(p.name, m)][0] == "OK" and m not in infos[p.name]["compile_failures"]]
+                lok = [m for m in launched_ok if xl[(p.name, m)][0] == "OK"]
+                texts, launcher_of = [], {}
+                for m in lok:
+                    with open(xl[(p.name, m)][2]) as f:
+                        key = hashlib.sha1(f.read().encode()).hexdigest()
+                    found = [t for t in texts if t[2] == key]
+                    if not found:
+                        texts.append((len(texts), xl[(p.name, m)][2], key))
+                        found = [texts[-1]]
+                    launcher_of[m] = (found[0][0], found[0][1])
+                infos[p.name]["modes"] = kept_ok + lok
+                if kept_ok or lok:
+                    out.append(program_section(p, kept_ok, lok, launcher_of,
+                                               dict((m, xl[(p.name, m)][1]) for m in kept_ok) if inline else {}))
+            return out
+
         mobj = os.path.join(d, "main.o")
-        extra = self.host_extra
-        merged = True
+        secs = sections(True)
+        if not secs:
+            return infos
         try:
-            src = write(os.path.join(d, "main.cpp"), main_tu(p, kept_ok, launched_ok, launcher_of, inline_kept=kept_paths))
-            run_cmd(gpuemu.host_cmd(VARIANT, src, mobj, extra=extra), "compile of the main TU (reference + launcher + Serial/OpenMP)")
+            src = write(os.path.join(d, "main.cpp"), main_tu(secs))
+            run_cmd(gpuemu.host_cmd(VARIANT, src, mobj, extra=self.host_extra), "compile of the main TU (reference + launcher + Serial/OpenMP)")
         except BuildError:
-            merged = False
-        if not merged:
-            still = []
-            for m in kept_ok:
+            if not single:
+                return None
+            p = progs[0]
+            for m in KEPT:
+                if m not in modes or xl[(p.name, m)][0] != "OK":
+                    continue
                 obj = os.path.join(d, "%s.o" % m)
                 try:
-                    src = write(os.path.join(d, "%s_tu.cpp" % m), kept_tu(p, m, kept_paths[m]))
+                    src = write(os.path.join(d, "%s_tu.cpp" % m), kept_tu(progs, m, xl))
                     run_cmd(kept_compile_cmd(src, obj, openmp=(m == "openmp")), "compile of the %s translation" % m)
-                    still.append(m)
                     objs.append(obj)
                 except BuildError as e:
-                    info["compile_failures"][m] = str(e)
-            kept_ok = still
-            src = write(os.path.join(d, "main.cpp"), main_tu(p, kept_ok, launched_ok, launcher_of))
+                    infos[p.name]["compile_failures"][m] = str(e)
+            secs = sections(False)
+            src = write(os.path.join(d, "main.cpp"), main_tu(secs))
             try:
                 run_cmd(gpuemu.host_cmd(VARIANT, src, mobj, extra=self.host_extra), "compile of the main TU (reference + launcher)")
             except BuildError as e:
                 # the launcher is part of the translation of every launched mode
-                info["compile_failures"]["launcher"] = str(e)
-                return info
+                infos[p.name]["compile_failures"]["launcher"] = str(e)
+                infos[p.name]["modes"] = []
+                return infos
         exe = os.path.join(d, "run.exe")
-        run_cmd(gpuemu.link_cmd(VARIANT, [mobj] + objs + [self.miniomp_o], exe), "link " + p.name)
-        info["exe"] = exe
-        info["modes"] = kept_ok + launched_ok
-        return info
+        run_cmd(gpuemu.link_cmd(VARIANT, [mobj] + objs + [self.miniomp_o], exe), "link " + tag)
+        for p in progs:
+            if infos[p.name]["modes"]:
+                infos[p.name]["exe"] = exe
+        return infos
 
 
 RLINE = re.compile(r"^R (\S+) (\d+) (\S+) cells=(\d+) written=(\d+) \| ?(.*)$")
@@ -314,17 +417,60 @@ def ub_reports(err):
     return sorted(set(out))
 
 
-def run_backend(exe, mode, env, cwd, nvalues=pg.NVALUES, timeout=120):
-    """-> list of observations (mode, N, status, cells, written, detail).  status additionally: 'crash'."""
+def run_all(exe, prog, modes, env, cwd, race=False, timeout=1800):
+    """One process for all backends (`exe all`); whatever is missing afterwards (crash, sanitizer abort, timeout) is
+    re-run backend by backend with run_backend, which attributes the failure to its N."""
+    e = dict(env)
+    e["OCCA_CACHE_DIR"] = os.path.join(cwd, "cache-%s-all%s" % (prog, "-race" if race else ""))
+    e.pop("GPUEMU_ITEM_ORDER", None)
+    try:
+        p = subprocess.run([exe, prog, "all"], stdout=subprocess.PIPE, stderr=subprocess.PIPE, text=True, env=e, cwd=cwd, timeout=timeout)
+        out, err = p.stdout, p.stderr
+    except subprocess.TimeoutExpired as ex:
+        out = ex.stdout.decode("utf-8", "replace") if isinstance(ex.stdout, bytes) else (ex.stdout or "")
+        err = ""
+    obs, have = [], {}
+    for ln in out.split("\n"):
+        m = RLINE.match(ln)
+        if m:
+            label, n = m.group(1), int(m.group(2))
+            mode, _, order = label.partition("@")
+            d = m.group(6)
+            if order == "desc" and m.group(3) != "ok":
+                d += " [work-items of a group run in descending order]"
+            obs.append((mode, n, m.group(3), int(m.group(4)), int(m.group(5)), d))
+            have.setdefault((mode, order or "asc"), set()).add(n)
+        elif ln.startswith("M "):
+            f = ln.split()
+            obs.append((f[1].partition("@")[0], int(f[2]), "monitor", int(f[3].split("=")[1]), 0, ""))
+    for fname, kind in ub_reports(err):
+        mm = re.search(r"_(%s)\.(xl|launcher)" % "|".join(ALL_MODES), fname)
+        obs.append((mm.group(1) if mm else "launcher", -1, "ubsan", 0, 0, "%s: %s" % (fname, kind)))
+    for m in modes:
+        if race and m not in LAUNCHED:
+            continue
+        for order in (("asc", "desc") if (m in LAUNCHED and not race) else ("asc",)):
+            missing = [n for n in pg.NVALUES if n not in have.get((m, order), set())]
+            if missing:
+                obs = [o for o in obs if not (o[0] == m and o[2] == "monitor")] if race else obs
+                obs += run_backend(exe, prog, m, env, cwd, nvalues=missing, order=order)
+    return obs
+
+
+def run_backend(exe, prog, mode, env, cwd, nvalues=pg.NVALUES, timeout=900, order="asc"):
+    """-> list of observations (mode, N, status, cells, written, detail).  status additionally: 'crash', 'ubsan', 'timeout'.
+    order: 'asc' | 'desc' = order in which gpuemu runs the work-items of a group inside a barrier phase."""
     obs = []
     pending = list(nvalues)
     first = True
+    timed_out = set()
     while pending:
-        args = [exe, mode] if (first and tuple(pending) == tuple(pg.NVALUES)) else [exe, mode, str(pending[0])]
-        single = len(args) == 3
+        args = [exe, prog, mode] if (first and tuple(pending) == tuple(pg.NVALUES)) else [exe, prog, mode, str(pending[0])]
+        single = len(args) == 4
         first = False
         e = dict(env)
-        e["OCCA_CACHE_DIR"] = os.path.join(cwd, "cache-" + mode)
+        e["OCCA_CACHE_DIR"] = os.path.join(cwd, "cache-%s-%s-%s" % (prog, mode, order))
+        e["GPUEMU_ITEM_ORDER"] = order
         try:
             p = subprocess.run(args, stdout=subprocess.PIPE, stderr=subprocess.PIPE, text=True, env=e, cwd=cwd, timeout=timeout)
             out, err, rc = p.stdout, p.stderr, p.returncode
@@ -337,16 +483,30 @@ def run_backend(exe, mode, env, cwd, nvalues=pg.NVALUES, timeout=120):
                 n = int(m.group(2))
                 obs.append((mode, n, m.group(3), int(m.group(4)), int(m.group(5)), m.group(6)))
                 done.append(n)
+        for ln in out.split("\n"):
+            if ln.startswith("M "):
+                f = ln.split()
+                obs.append((mode, int(f[2]), "monitor", int(f[3].split("=")[1]), 0, ""))
         ubs = ub_reports(err)
         if ubs:
             obs.append((mode, done[-1] if done else pending[0], "ubsan", 0, 0, "; ".join("%s: %s" % u for u in ubs[:3])))
         remaining = [n for n in (pending[:1] if single else pending) if n not in done]
-        if remaining:
+        if remaining and err == "timeout":
+            # never a verdict: retried once on its own, then reported as harness problem by the caller
             n = remaining[0]
-            kind = sanitizer_kind(err) or ("timeout" if err == "timeout" else "exit:%s" % rc)
+            if n in timed_out:
+                obs.append((mode, n, "timeout", 0, 0, "no result within %d s (twice)" % timeout))
+                done.append(n)
+            else:
+                timed_out.add(n)
+        elif remaining:
+            n = remaining[0]
+            kind = sanitizer_kind(err) or ("exit:%s" % rc)
             tail = err.strip().split("\n")
             detail = " | ".join(x.strip() for x in tail[:6])[:600]
             obs.append((mode, n, "crash", 0, 0, kind + " :: " + detail))
             done.append(n)
         pending = [n for n in pending if n not in done]
+    if order != "asc":
+        obs = [(m, n, st, c, w, (d + " [work-items of a group run in descending order]") if st != "ok" else d) for (m, n, st, c, w, d) in obs]
     return obs
